@@ -96,6 +96,13 @@ type Spec struct {
 	RangeCond map[string]string // source of a ranged-over expression -> Lean Bool input "some iteration takes the loop's single `if ... { return }`"
 	Status    map[string]int    // "status"/"statusstate" return modes: Go expression source (http.StatusX) -> number
 	StatusIdx int               // index of the status among the results ("status", "statusstate", "statuserr")
+	ReturnVal   string   // Ret "verdict": the Lean term every `return` stands for
+	ContinueVal string   // the Lean term a `continue` stands for ("" = continue unsupported)
+	ParamNames  []string // canonical names of the Go function's parameters, by position ("" = leave): a renamed parameter is aliased back
+	AppendEffect map[string]string // `x = append(x, v)` where v is this (canonical) identifier -> "leanVar := term" binding it performs
+	Prelude     string   // Lean let-bindings placed before the translated statements (initial values of state variables)
+	Canon       bool     // function-level aliases (prepare): renamed parameters and hoisted pure reads are substituted back before markers and keys are matched
+	Inline      bool     // translate calls to single-result functions / methods declared in the same file by inlining their bodies
 	Lazy      bool              // drop `x := e` when e is not translatable; a later translated use of x then fails the unit
 	Bind      map[string]string // call-name prefix -> the name the Spec's keys use for the call's first result (survives a rename of the local)
 }
@@ -105,6 +112,159 @@ type tr struct {
 	pendingErr string              // Lean Bool for the `err` assigned by the latest ErrCalls call
 	aliases    map[string]ast.Expr // Go local -> the expression it stands for (hoisted pure reads, renamed call results)
 	opaque     map[string]bool     // Go locals whose defining expression could not be translated: fine as long as nothing translated uses them
+	file       *ast.File           // the file being translated (helper inlining)
+	fd         *ast.FuncDecl       // the function being translated (set by prepare)
+	depth      int                 // inlining depth
+}
+
+func (t *tr) alias(name string, e ast.Expr) {
+	if t.aliases == nil {
+		t.aliases = map[string]ast.Expr{}
+	}
+	t.aliases[name] = e
+}
+
+// prepare sets up the function-level aliases of a unit: parameters renamed with respect to Spec.ParamNames, and every local
+// that is defined exactly once by a pure access path which is not itself translatable (`naStart := opts.notAfterStart`).
+func (t *tr) prepare(fd *ast.FuncDecl) {
+	if fd == nil || fd.Body == nil || !t.sp.Canon {
+		return
+	}
+	if fd.Type.Params != nil {
+		i := 0
+		for _, f := range fd.Type.Params.List {
+			for _, n := range f.Names {
+				if i < len(t.sp.ParamNames) && t.sp.ParamNames[i] != "" && n.Name != t.sp.ParamNames[i] && n.Name != "_" {
+					t.alias(n.Name, ast.NewIdent(t.sp.ParamNames[i]))
+				}
+				i++
+			}
+		}
+	}
+	t.fd = fd
+}
+
+// aliasesOnPathTo records, for the statement lists that enclose target, the hoisted pure reads (`x := a.b`, `cert := chain[0]`)
+// defined in them before the statement that leads to target — flow-sensitive and block-local, so that a shadowing loop variable of
+// the same name elsewhere in the function does not matter.
+func (t *tr) aliasesOnPathTo(target ast.Node) {
+	if t.fd == nil || !t.sp.Canon {
+		return
+	}
+	var walk func(list []ast.Stmt) bool
+	contains := func(n ast.Node) bool {
+		found := false
+		ast.Inspect(n, func(m ast.Node) bool {
+			if m == target {
+				found = true
+			}
+			return !found
+		})
+		return found
+	}
+	walk = func(list []ast.Stmt) bool {
+		for _, st := range list {
+			if contains(st) {
+				switch x := st.(type) {
+				case *ast.IfStmt:
+					if contains(x.Body) {
+						return walk(x.Body.List)
+					}
+					if x.Else != nil {
+						if b, ok := x.Else.(*ast.BlockStmt); ok {
+							return walk(b.List)
+						}
+						return walk([]ast.Stmt{x.Else})
+					}
+				case *ast.RangeStmt:
+					if x.Body != target {
+						return walk(x.Body.List)
+					}
+				case *ast.ForStmt:
+					return walk(x.Body.List)
+				case *ast.BlockStmt:
+					return walk(x.List)
+				}
+				return true
+			}
+			if as, ok := st.(*ast.AssignStmt); ok && as.Tok == token.DEFINE && len(as.Lhs) == len(as.Rhs) {
+				for i := range as.Lhs {
+					if id, ok := as.Lhs[i].(*ast.Ident); ok && id.Name != "_" && pureAccess(as.Rhs[i]) && !t.inIgnoreLHS(id.Name) {
+						t.alias(id.Name, t.subst(as.Rhs[i]))
+					}
+				}
+			}
+		}
+		return false
+	}
+	walk(t.fd.Body.List)
+}
+
+// inlineCall translates a call to a single-result function or method declared in the same file by translating its body with the
+// parameters (and the receiver) standing for the arguments.
+func (t *tr) inlineCall(c *ast.CallExpr) (string, bool) {
+	if !t.sp.Inline || t.file == nil || t.depth > 3 {
+		return "", false
+	}
+	var fd *ast.FuncDecl
+	var recv ast.Expr
+	switch f := c.Fun.(type) {
+	case *ast.Ident:
+		fd = findFunc(t.file, f.Name)
+	case *ast.SelectorExpr:
+		n := 0
+		for _, d := range t.file.Decls {
+			if g, ok := d.(*ast.FuncDecl); ok && g.Recv != nil && g.Name.Name == f.Sel.Name {
+				fd = g
+				n++
+			}
+		}
+		if n != 1 {
+			return "", false
+		}
+		recv = f.X
+	}
+	if fd == nil || fd.Body == nil || fd.Type.Results == nil || len(fd.Type.Results.List) != 1 || len(fd.Type.Results.List[0].Names) > 1 {
+		return "", false
+	}
+	sp := t.sp
+	sp.Ret = ""
+	sp.ParamNames = nil
+	t2 := &tr{sp: sp, file: t.file, depth: t.depth + 1}
+	for k, v := range t.aliases {
+		t2.alias(k, v)
+	}
+	if recv != nil && fd.Recv != nil && len(fd.Recv.List) == 1 && len(fd.Recv.List[0].Names) == 1 {
+		t2.alias(fd.Recv.List[0].Names[0].Name, t.subst(recv))
+	}
+	i := 0
+	for _, f := range fd.Type.Params.List {
+		for _, n := range f.Names {
+			if i < len(c.Args) {
+				t2.alias(n.Name, t.subst(c.Args[i]))
+			}
+			i++
+		}
+	}
+	if i != len(c.Args) {
+		return "", false
+	}
+	out, ok := "", false
+	func() {
+		defer func() {
+			if r := recover(); r != nil {
+				if _, isBail := r.(bail); !isBail {
+					panic(r)
+				}
+			}
+		}()
+		out = t2.block(fd.Body.List, "default", "    ")
+		ok = true
+	}()
+	if !ok {
+		return "", false
+	}
+	return "(" + out + ")", true
 }
 
 // pureAccess: a side-effect-free read path (x, x.f, x[const], x.GetF(), *x, &x, len(x)) whose value cannot change between a
@@ -400,6 +560,11 @@ func (t *tr) expr(e ast.Expr) string {
 			}
 		}
 	}
+	if c, ok := e.(*ast.CallExpr); ok {
+		if out, ok := t.inlineCall(c); ok {
+			return out
+		}
+	}
 	failf(e, "unsupported expression %s (%T)", s, e)
 	return ""
 }
@@ -435,6 +600,10 @@ func (t *tr) assigned(b []ast.Stmt, out map[string]bool) {
 	for _, s := range b {
 		switch x := s.(type) {
 		case *ast.AssignStmt:
+			if v := t.appendEffectVar(x); v != "" {
+				out[v] = true
+				continue
+			}
 			if x.Tok != token.DEFINE {
 				for _, l := range x.Lhs {
 					skip := false
@@ -470,6 +639,9 @@ func hasReturn(b []ast.Stmt) bool {
 		ast.Inspect(s, func(n ast.Node) bool {
 			if _, ok := n.(*ast.ReturnStmt); ok {
 				found = true
+			}
+			if b, ok := n.(*ast.BranchStmt); ok && b.Tok == token.CONTINUE {
+				found = true // leaves the statement list just as a return does
 			}
 			return !found
 		})
@@ -512,6 +684,8 @@ func (t *tr) ret(r *ast.ReturnStmt) string {
 		}
 		failf(r, "errbool: return with %d results", len(r.Results))
 		return ""
+	case "verdict":
+		return t.sp.ReturnVal
 	case "stateonly":
 		// a function without results whose observable behaviour is recorded in StateVars
 		if len(r.Results) != 0 {
@@ -613,6 +787,22 @@ func (t *tr) inIgnoreLHS(name string) bool {
 	return false
 }
 
+// appendEffectVar: the Lean variable an `x = append(x, v)` statement sets through Spec.AppendEffect, or "".
+func (t *tr) appendEffectVar(x *ast.AssignStmt) string {
+	if len(x.Rhs) != 1 || len(t.sp.AppendEffect) == 0 {
+		return ""
+	}
+	c, ok := x.Rhs[0].(*ast.CallExpr)
+	if !ok || src(c.Fun) != "append" || len(c.Args) < 2 {
+		return ""
+	}
+	eff, ok := t.sp.AppendEffect[norm(src(t.subst(c.Args[len(c.Args)-1])))]
+	if !ok {
+		return ""
+	}
+	return strings.TrimSpace(strings.SplitN(eff, ":=", 2)[0])
+}
+
 // initKey renders an if-init statement with aliases substituted on its right-hand sides.
 func (t *tr) initKey(st ast.Stmt) string {
 	as, ok := st.(*ast.AssignStmt)
@@ -703,6 +893,11 @@ func (t *tr) block(b []ast.Stmt, tail string, ind string) string {
 		failf(s, "unsupported defer %s", src(s))
 	case *ast.ReturnStmt:
 		return t.ret(x)
+	case *ast.BranchStmt:
+		if x.Tok == token.CONTINUE && x.Label == nil && t.sp.ContinueVal != "" {
+			return t.sp.ContinueVal
+		}
+		failf(s, "unsupported branch statement %s", src(s))
 	case *ast.DeclStmt:
 		gd, ok := x.Decl.(*ast.GenDecl)
 		if !ok || gd.Tok != token.VAR {
@@ -739,6 +934,13 @@ func (t *tr) block(b []ast.Stmt, tail string, ind string) string {
 		}
 		return "let " + v + " := (" + t.ops() + op + t.expr(x.X) + " (1 : Int))\n" + ind + t.block(rest, tail, ind)
 	case *ast.AssignStmt:
+		if len(x.Rhs) == 1 && len(t.sp.AppendEffect) > 0 {
+			if c, ok := x.Rhs[0].(*ast.CallExpr); ok && src(c.Fun) == "append" && len(c.Args) >= 2 {
+				if eff, ok := t.sp.AppendEffect[norm(src(t.subst(c.Args[len(c.Args)-1])))]; ok {
+					return "let " + eff + "\n" + ind + t.block(rest, tail, ind)
+				}
+			}
+		}
 		if len(x.Rhs) == 1 {
 			if name, ok := prefixLookup(t.sp.ErrCalls, callName(t.subst(x.Rhs[0]))); ok {
 				if src(x.Lhs[len(x.Lhs)-1]) != "err" {
